@@ -40,6 +40,8 @@ THEOREMS = [
     "Qentem.Round.nearestBits_eq",
     "Qentem.Props.C11P.parse_exact_fixed",
     "Qentem.Props.C11P.parse_exact_int",
+    "Qentem.Props.C09.negexp_exact_every_mantissa",
+    "Qentem.Props.C09.negexp_exceptions_one_ulp_low",
     "Qentem.Props.C11P.parse_exact_small",
     "Qentem.Props.C11P.parse_exact_sci",
     "Qentem.Props.C11P.parse_exact17",
